@@ -57,7 +57,7 @@ def step (st : St) (args : List String) : St × String :=
       let lst (m : ModSpec) : String := s!"{m.name}:{m.lists.1.getD "-"}/{m.lists.2.getD "-"}"
       let sorted (l : List String) := l.foldl (fun acc x => insertSorted x acc) []
       (st, s!"conf min={minIntervalOf specs} mods=" ++ ";".intercalate (sorted (specs.map one)) ++ " lists=" ++
-        ";".intercalate (sorted (specs.map lst)))
+        ";".intercalate (sorted (specs.map lst)) ++ " ex=ok")
   | ["group", c, g] => ({ st with state := setG (c, g) GroupRec.fresh st.state }, "ok")
   | ["delgroup", c, g] => ({ st with state := eraseG (c, g) st.state }, "ok")
   | ["refresh", spec, stall] =>
